@@ -87,6 +87,59 @@ class Effects:
         self._getter[path] = r
         return r
 
+    def deep_getter(self, path, depth=0):
+        """like getter_summary, but a getter may be built on other getters and casts (`fn len(&self) { self.mapping.size() as u64 }`):
+        the return term with the inner getters expanded, or None. Used only where a rule asks for it (the plain `inline` keeps such
+        calls symbolic, which is what most rules match on)."""
+        g = self.getter_summary(path)
+        if g is not None:
+            return g
+        b = self.prog.by_id.get(path)
+        if b is None or b.kind == "Closure" or depth > 3:
+            return None
+        if any(blk["term"]["k"] == "switch" for i, blk in enumerate(b.blocks) if i in b.live_blocks()):
+            return None
+        rts = b.return_terms()
+        if len(rts) != 1:
+            return None
+
+        def ex(t):
+            t = deep_strip(t)
+            if not isinstance(t, tuple) or not t:
+                return t
+            if t[0] == 'call':
+                if canon(t[1]).split('::')[-1] in ('size_of', 'align_of'):
+                    return t
+                g2 = self.deep_getter(t[1], depth + 1) if t[1] in self.prog.by_id else None
+                if g2 is None:
+                    raise ValueError
+                args = tuple(ex(a) for a in t[2])
+                return ex(subst(g2, {i + 1: a for i, a in enumerate(args)}))
+            if t[0] in ('param', 'const', 'sym'):
+                return t
+            if t[0] in ('field', 'deref', 'ref', 'bin', 'agg', 'cast'):
+                return map_children(t, ex)
+            raise ValueError
+        try:
+            return ex(rts[0][1])
+        except ValueError:
+            return None
+
+    def inline_deep(self, t, depth=0):
+        """inline(t), additionally expanding getters built on getters"""
+        t = self.inline(t)
+        if depth > 3 or not isinstance(t, tuple) or not t:
+            return t
+        if t[0] == 'call':
+            args = tuple(self.inline_deep(a, depth + 1) for a in t[2])
+            g = self.deep_getter(t[1]) if t[1] in self.prog.by_id else None
+            if g is None:
+                return ('call', t[1], args) + tuple(t[3:])
+            return self.inline_deep(subst(g, {i + 1: a for i, a in enumerate(args)}), depth + 1)
+        if t[0] in LEAF_TAGS:
+            return t
+        return map_children(t, lambda x: self.inline_deep(x, depth + 1))
+
     def inline(self, t, depth=0):
         """inline calls to local pure getters inside term t"""
         t = deep_strip(t)
